@@ -44,6 +44,7 @@ structure Inst where
   running : Bool := false          -- started and no stop call since
   everStopped : Bool := false      -- a stop call has been made since the last Start
   ctxNil : Bool := true            -- e.ctx == nil: never started, or a StopWithContext completed
+  startFailed : Bool := false      -- the last Start failed half-way (connection monitor): a cancelled context is installed and `stopped` is reset
   flag : Bool := false
   termTok : Nat := 0
   pendingFlag : Option Bool := none   -- a transition was recorded: the flag event of the same critical section must follow
@@ -182,13 +183,13 @@ def step (s : Sys) (te : TEv) : R Sys :=
         if x.ctxNil then
           pure { s with calls := (n, i, k) :: s.calls }       -- will return ErrAlreadyStopped
         else
-          let x' := { x with stops := { n := n, wasLeader := x.flag } :: x.stops, running := false, everStopped := true, stopPendingTrans := true }
+          let x' := { x with stops := { n := n, wasLeader := x.flag } :: x.stops, running := false, everStopped := true, stopPendingTrans := true, startFailed := false }
           pure { s with st := s.st.set x', calls := (n, i, k) :: s.calls }
       | .stopctx _ _ _ _ =>
-        if x.everStopped ∨ x.ctxNil then
+        if (x.everStopped ∧ ¬ x.startFailed) ∨ x.ctxNil then
           pure { s with calls := (n, i, k) :: s.calls }       -- will return ErrAlreadyStopped
         else
-          let x' := { x with stops := { n := n, wasLeader := x.flag } :: x.stops, running := false, everStopped := true, stopPendingTrans := true }
+          let x' := { x with stops := { n := n, wasLeader := x.flag } :: x.stops, running := false, everStopped := true, stopPendingTrans := true, startFailed := false }
           pure { s with st := s.st.set x', calls := (n, i, k) :: s.calls }
       | _ => pure { s with calls := (n, i, k) :: s.calls }
   | .apiRet n i r =>
@@ -200,6 +201,11 @@ def step (s : Sys) (te : TEv) : R Sys :=
         if x.running then reject s!"instance {i}: Start succeeded while running"
         else if x.flag ∨ x.pendingFlag.isSome ∨ x.stopPendingTrans then reject s!"instance {i}: Start succeeded inside a critical section / while leading"
         else pure { s1 with st := s1.st.set { x with running := true, everStopped := false, ctxNil := false, state := 1 } }
+      | .start, .err =>
+        -- Start failed after installing (and cancelling) a new context and resetting `stopped` (the connection monitor
+        -- refused to start again): the election does not run, but the next stop call goes through a full shutdown
+        if x.running ∨ x.flag ∨ x.pendingFlag.isSome ∨ x.stopPendingTrans then pure s1
+        else pure { s1 with st := s1.st.set { x with ctxNil := false, startFailed := true } }
       | .start, _ => pure s1
       | .stop, _ | .stopctx _ _ _ _, _ =>
         match x.stops.find? (·.n = n) with
